@@ -46,11 +46,14 @@ def post_for(op, dests, srcs):
     if k == 'fconv_fl':
         a = srcs[0]
         f = F32(a)
-        return '(!(%s > -2147483904.0f && %s < 2147483648.0f) || %s == (unsigned int)(int)%s)' % (f, f, dests[0], f)
+        # truncation toward zero inside the int32 range; |x| >= 2^31, infinities and NaN saturate by sign
+        return ('(((unsigned int)(%s) & 0x7fffffffu) >= 0x4f000000u ? %s == (((unsigned int)(%s) & 0x80000000u) ? 0x80000000u : 0x7fffffffu) : %s == (unsigned int)(int)%s)'
+                % (a, dests[0], a, dests[0], f))
     if k == 'fconv_dl':
         a = srcs[0]
         f = F64(a)
-        return '(!(%s > -2147483649.0 && %s < 2147483648.0) || %s == (unsigned int)(int)%s)' % (f, f, dests[0], f)
+        return ('(((unsigned long)(%s) & 0x7fffffffffffffffUL) >= 0x41e0000000000000UL ? %s == (((unsigned long)(%s) & 0x8000000000000000UL) ? 0x80000000u : 0x7fffffffu) : %s == (unsigned int)(int)%s)'
+                % (a, dests[0], a, dests[0], f))
     if k == 'fconv_fd':
         a = FL32(srcs[0])
         return '(%s ? %s : %s == %s)' % (NAN32(a), NAN64(dests[0]), dests[0], B64('((double)%s)' % F32(a)))
